@@ -8,7 +8,20 @@ from eth_hash.auto import keccak  # noqa: E402
 
 ID = "C14"
 LEAN_IMPORTS = ["PyTrie.Props.C14"]
-THEOREMS = []
+THEOREMS = [
+    "PyTrie.Props.C14.run_rep",
+    "PyTrie.Props.C14.root_is_merkle_root",
+    "PyTrie.Props.C14.root_history_independent",
+    "PyTrie.Props.C14.cleared_root_is_initial",
+    "PyTrie.Props.C14.get_spec",
+    "PyTrie.Props.C14.branch_verifies",
+    "PyTrie.Props.C14.set_returns_path",
+    "PyTrie.Props.C14.from_db_same",
+    "PyTrie.Smt.init_rep",
+    "PyTrie.Smt.getAux_of_rep",
+    "PyTrie.Smt.set_spec",
+    "PyTrie.Smt.calcRoot_siblings",
+]
 RULE = ("key sizes 1, 2, 3 and 32 (and others at random), blank and non-blank defaults, histories of set / delete (method and "
         "dict syntax, values equal to the default, blank values, rewrites) over key pools whose members differ at every bit "
         "position (first, last, middle); after every call the returned node hashes, the root, get / exists / branch of every pool "
@@ -31,7 +44,7 @@ def gen_pool(rng, ks):
 
 
 def gen_cases(rng, tier):
-    n = 220 if tier == "quick" else 4000
+    n = 200 if tier == "quick" else 4000
     for i in range(n):
         r = rng.random()
         ks = 1 if r < 0.35 else 2 if r < 0.6 else 3 if r < 0.75 else 32 if r < 0.9 else rng.randint(4, 31)
